@@ -1,5 +1,5 @@
 #!/usr/bin/env python3
-"""mutation_sweep.py [--ops del,neg,rel] [--files f1,f2,...] [--jobs N] [--out FILE] — adequacy of the rule set against mechanical
+"""mutation_sweep.py [--ops del,neg,rel] [--files f1,f2,...] [--jobs N] [--out FILE] [--shuffle SEED] [--limit N] — adequacy of the rule set against mechanical
 one-line mutants of /repo (a coverage measurement for the *rules*, not a check: nothing here decides a property).
 
 For every candidate line of the library sources a mutant is made in a scratch copy of the sources the checks read (never in /repo):
@@ -129,6 +129,10 @@ def main():
         if os.path.exists(os.path.join(REPO, f)):
             cands += candidates(f, ops)
     cands = [c for c in cands if (c[0], c[1], c[2]) not in done]
+    shuffle = opt("--shuffle", "")
+    if shuffle:
+        import random
+        random.Random(int(shuffle)).shuffle(cands)      # an interrupted sweep is then an unbiased sample
     if limit:
         cands = cands[:limit]
     print("%d mutants to run (%d already done), %d jobs" % (len(cands), len(done), jobs), flush=True)
